@@ -1,9 +1,17 @@
-(* Properties/C08.v — the decoder rejects short files and unsupported versions (C08, partial).
-   The statements about *every* proper prefix and every extension of a valid file are decided by
-   the correspondence run (every truncation offset of every generated file, on the model and on
-   the crate) and by evaluating spec_C08 on the crate's outcomes; they are not yet theorems —
-   see C08_full_statement below. *)
-From HpoV Require Import Gen.Consts Model.Base Model.Onto Model.Binary Proofs.BinaryP.
+(* Properties/C08.v — the decoder honours v1-v3 and rejects truncated / extended / unknown-version
+   files (C08).  Theorems about the Gallina transcription of Ontology::from_bytes and the
+   parser/binary modules (Model/Binary.v [decode]), for EVERY byte string. *)
+From HpoV Require Import Gen.Consts Model.Base Model.Onto Model.Binary Proofs.BinaryP Proofs.DecodeP.
+
+(* any accepted file followed by any non-empty suffix is rejected with ParseBinaryError *)
+Theorem C08_every_extension_rejected : forall icf f s o, decode icf f = Ok o -> s <> [] ->
+  decode icf (f ++ s) = Err ParseBinaryError.
+Proof. exact extension_rejected. Qed.
+
+(* no proper prefix of an accepted file is accepted (it is an error or a panic, never an ontology) *)
+Theorem C08_every_proper_prefix_rejected : forall icf f o n, decode icf f = Ok o -> (n < length f)%nat ->
+  forall o', decode icf (firstn n f) <> Ok o'.
+Proof. exact prefix_rejected. Qed.
 
 Theorem C08_short_rejected : forall icf input, Nlen input < MIN_LEN -> decode icf input = Err ParseBinaryError.
 Proof. exact decode_short. Qed.
@@ -15,12 +23,8 @@ Proof. exact decode_bad_version. Qed.
 Theorem C08_writer_version_accepted : mem EMIT_VERSION ACCEPTED_VERSIONS = true /\ MAGIC_WRITER = MAGIC_READER.
 Proof. exact writer_version_accepted. Qed.
 
-(* the full statement this file is working towards *)
-Definition C08_full_statement : Prop :=
-  forall icf f o, decode icf f = Ok o ->
-    (forall n, (n < length f)%nat -> forall o', decode icf (firstn n f) <> Ok o') /\
-    (forall s, s <> [] -> forall o', decode icf (f ++ s) <> Ok o').
-
+Print Assumptions C08_every_extension_rejected.
+Print Assumptions C08_every_proper_prefix_rejected.
 Print Assumptions C08_short_rejected.
 Print Assumptions C08_bad_version_rejected.
 Print Assumptions C08_writer_version_accepted.
